@@ -200,7 +200,9 @@ package twig
 //@   atcall Node.Render n.only ==> a2.parent == nil
 //@   atcall Node.Render !n.only && !n.sandboxed ==> a2.parent == ctx
 //@   atcall (*RenderContext).SetVariable a0 != ctx && freshRef(a0)
-//@   atcall (*RenderContext).EvaluateExpression a0 == ctx
+// (C03: the with-expressions are evaluated in the includer's context, which the loop over the map
+// of with-variables does not write - so their values cannot depend on its order)
+//@   atcall[C11,C17,C03] (*RenderContext).EvaluateExpression a0 == ctx
 //@   flag errretry (*Engine).Load
 //@   flag errtolerate n.ignoreMissing && errIs(pendErr, ErrTemplateNotFound) && ret == nil
 // Load: a loader that does not have the name is skipped (the first that has it wins) and a
@@ -336,7 +338,7 @@ package twig
 // evictLRUEntries is documented as "caller holds the attributeCache lock"
 //@ func evictLRUEntries props: C02 C20
 //@   flag holds attributeCache
-//@   requires[C20,C01] CacheOK()
+//@   requires[C20,C01] global CacheOK()
 //@   ensures[C20,C01] CacheOK()
 //@   loop * invariant[C20,C01] CacheOK()
 //@ func evictLRUEntries$1 props: C02
@@ -433,6 +435,12 @@ package twig
 //@   loop 3 invariant[C09] 0 - 1 <= rangeindex && rangeindex < len(n.elseBranch) && tr == rendersUpTo(evalsUpTo(old(tr), elemsArr(n.conditions), off(n.conditions), len(n.conditions), ctx), elemsArr(n.elseBranch), off(n.elseBranch), rangeindex + 1, ctx)
 //@   ensures[C09] err == nil ==> (exists k int :: 0 <= k && k < len(n.conditions) && falsyUpTo(old(tr), elemsArr(n.conditions), off(n.conditions), k, ctx) && fn_toBool_0(ctx, evalRes(evalsUpTo(old(tr), elemsArr(n.conditions), off(n.conditions), k, ctx), n.conditions[k], ctx)) && tr == rendersUpTo(evalsUpTo(old(tr), elemsArr(n.conditions), off(n.conditions), k + 1, ctx), elemsArr(n.bodies[k]), off(n.bodies[k]), len(n.bodies[k]), ctx)) || (falsyUpTo(old(tr), elemsArr(n.conditions), off(n.conditions), len(n.conditions), ctx) && tr == rendersUpTo(evalsUpTo(old(tr), elemsArr(n.conditions), off(n.conditions), len(n.conditions), ctx), elemsArr(n.elseBranch), off(n.elseBranch), len(n.elseBranch), ctx))
 // the node invariant IfNode.Render relies on is established where the node is built
+// expressions in tag position go through the expression parser like everywhere else: the parent
+// name of extends and the expression of a print tag are what one full expression parse yields
+//@ func (*Parser).parseExtends props: C10 C08
+//@   ensures[C10,C08] err == nil ==> typeIs(ret0, "*ExtendsNode") && unboxAs(ret0, "*ExtendsNode").parent == pxe && pxk == 2
+//@ func (*Parser).parseOuterTemplate props: C08
+//@   atcall[C08] NewPrintNode a0 == pxe && pxk == 2
 // token path of the macro declaration: a parameter followed by "=" gets as its default the
 // expression the expression parser yields for what follows (so an omitted argument has the value
 // of the default expression, as a passed argument has the value of its expression)
@@ -481,6 +489,11 @@ package twig
 //@ define leftFalsy() !fn_toBool_0(ctx, evalRes(old(tr), binN().left, ctx))
 //@ impl (*RenderContext).EvaluateExpression props: C08
 //@   flag rely_tree yes
+// a call written through a module expression (m.name(...)) is answered from that module: it never
+// looks a macro up by its bare name
+//@   atcall[C12] (*RenderContext).GetMacro !(typeIs(node, "*FunctionNode") && unboxAs(node, "*FunctionNode").moduleExpr != nil)
+// x.name looks up the name that is written
+//@   atcall[C20] (*RenderContext).getAttribute a0 == ctx && (typeIs(node, "*GetAttrNode") ==> a1 == obj && a2 == attrStr)
 // a name bound in the context at hand (a set, a loop variable, a parameter) is answered by the
 // variable lookup, whatever macros of the same name exist
 //@   ensures[C09] typeIs(node, "*VariableNode") && has(ctx.context, unboxAs(node, "*VariableNode").name) ==> lk == emitLookup(old(lk), ctx, unboxAs(node, "*VariableNode").name) && ret0 == lookRes(old(lk), ctx, unboxAs(node, "*VariableNode").name) && ret1 == lookErr(old(lk), ctx, unboxAs(node, "*VariableNode").name)
@@ -611,6 +624,16 @@ package twig
 //@   flag streams yes
 //@   ensures dlen(data) == 9 && ditem(data, 0) == iU8(1) && lenPrefixed(data, 1) && lenPrefixed(data, 3) && isI64(ditem(data, 5)) && isI64(ditem(data, 6)) && lenPrefixed(data, 7) ==> err == nil && ret0.Name == bytesval(ditem(data, 2)) && ret0.Source == bytesval(ditem(data, 4)) && ret0.LastModified == i64val(ditem(data, 5)) && ret0.CompileTime == i64val(ditem(data, 6)) && bytesStr(ret0.AST) == bytesval(ditem(data, 8))
 // loading keeps name, source and timestamp of the compiled template
+// saving: success means the bytes serialised in this call for the template loaded in this call went
+// to the file (never "it is probably up to date")
+//@ ghost lser Slice
+//@ ghost lwd Slice
+//@ func SerializeCompiledTemplate
+//@   ghostassign lser ret0
+//@ func (*CompiledLoader).SaveCompiled props: C16
+//@   atcall[C16] (*Template).Compile a0 == template
+//@   atcall[C16] SerializeCompiledTemplate a0 == compiled
+//@   ensures[C16] ret == nil ==> lwd == lser
 // ... and its tree is the one the parser yields for the compiled source, whenever the compiled data
 // carries no serialised tree (a serialised tree that decodes is trusted to be that template's)
 //@ ghost lpn Iface
@@ -660,6 +683,10 @@ package twig
 //@   ensures[C15] isHit() && e.autoReload && cached().loader == nil ==> err == nil && ret0 == cached() && tr == old(tr)
 //@   ensures[C15] isHit() && e.autoReload && cached().loader != nil && !tsAware() ==> err == nil && ret0 == cached() && tr == old(tr)
 //@   ensures[C15] isHit() && e.autoReload && cached().loader != nil && tsAware() && mtimeErr(cached().loader, name) == nil && mtimeOf(cached().loader, name) <= cached().lastModified ==> err == nil && ret0 == cached() && tr == old(tr)
+// switching the cache on or off changes the setting, not what is registered or cached
+//@ func (*Engine).SetCache props: C15
+//@   requires e.environment != nil
+//@   ensures[C15] tplSame() && e.environment.cache == enabled
 // registration: the engine serves the source most recently registered under a name
 //@ func (*Engine).RegisterString props: C15
 //@   requires e.environment != nil
@@ -690,7 +717,7 @@ package twig
 //@ define FV() ufV_fieldByPath(OV(), ufS_fieldPath(OT(), attr))
 //@ define structCase() (obj != nil && !typeIs(obj, "map[string]interface{}") && ufi_kind(OV()) == 25)
 //@ func (*RenderContext).getAttribute props: C20
-//@   requires[C20,C01] CacheOK()
+//@   requires[C20,C01] global CacheOK()
 //@   ensures[C20,C01] CacheOK()
 //@   ensures[C20] err == nil && structCase() && uf_hasField(OT(), attr) && len(ufS_fieldPath(OT(), attr)) >= 1 && ufI_fieldByPathErr(OV(), ufS_fieldPath(OT(), attr)) == nil && uf_isValid(FV()) && uf_canIface(FV()) ==> ret0 == ufI_iface(FV())
 //@   ensures[C20] err == nil && structCase() && !uf_hasField(OT(), attr) && !valMeth(OT(), attr) && !ptrMeth(OT(), attr) ==> ret0 == nil
@@ -798,6 +825,9 @@ package twig
 //@   atcall dyn(*RenderContext) a0 == ctx
 //@   atcall dyn(io.Writer) a0 == w
 //@   atcall WriteString a0 == w
+// every {{ parent() }} runs the parent definition again, with the variables as they are now, and
+// writes what this run yielded
+//@   atcall[C10] WriteString#1 a1 == fn_ToString_0(ctx, parentResult)
 
 // ---------------------------------------------------------------- range() (C09)
 // range(a, b, s) is the list a, a+s, a+2s, ... of the values that do not pass b (b included when it
@@ -960,6 +990,17 @@ package twig
 // Intern only touches its own cache of strings (value equal to key: C01 global_allow)
 //@ func Intern props: C05
 //@   modifies entries(globalCache.strings), globalCache.RWMutex
+// interning never changes a name: every entry of the cache maps a string to itself (established by
+// newGlobalStringCache, kept by Intern, the only writer), so what Intern returns equals its argument
+//@ define internOK(M) (forall k string :: has(M, k) ==> M[k] == k)
+// the only writers of the two package-level maps that carry an invariant
+//@ list mapwriters attributeCache.m:(*RenderContext).getAttribute,evictLRUEntries,init GlobalStringCache.strings:Intern,newGlobalStringCache
+//@ func newGlobalStringCache props: C14 C08
+//@   loop 1 invariant[C14,C08] freshRef(cache) && cache.strings != nil && internOK(cache.strings)
+//@   ensures[C14,C08] internOK(ret.strings)
+//@ func Intern props: C14 C08 C20
+//@   requires global globalCache.strings != nil && internOK(globalCache.strings)
+//@   ensures[C14,C08,C20] ret == s && internOK(globalCache.strings)
 // Each round of the main loop starts right behind a closing delimiter (or behind an opener that a
 // backslash turned into text); the text token it emits is exactly the source between that position
 // and the first opener after it; the tag's tokens are produced from the source between the end of
